@@ -40,6 +40,8 @@ func init() {
 			{Pkg: "wire", Entry: "VerifH08a", What: "Bind = reference decoder for every body; Execute receives exactly the bound parameters",
 				Quick: map[string]int{"N": 14, "MAXCOUNT": 2}, Thorough: map[string]int{"N": 17, "MAXCOUNT": 2},
 				Witnesses: []string{"truncated", "null-value", "empty-value"}},
+			{Pkg: "wire", Entry: "VerifH08s", What: "structured Bind: up to 3 parameters, every admissible format-code count with symbolic codes, any placement of NULLs",
+				Quick: map[string]int{"PARAMS": 3}, Witnesses: []string{"null-with-positional-code", "one-code-for-all"}},
 			{Pkg: "wire", Entry: "VerifH08b", What: "result formats: announced = used = rule(none/one/n)",
 				Quick: map[string]int{"COLS": 2}, Thorough: map[string]int{"COLS": 3},
 				Witnesses: []string{"one-code-applies-to-all", "positional-codes"}},
@@ -62,6 +64,8 @@ func init() {
 				Witnesses: []string{"missing-terminator", "duplicate-key", "user-given", "with-version"}},
 			{Pkg: "wire", Entry: "VerifH12b", What: "CancelRequest: no reply, no callback, closed",
 				Quick: map[string]int{}, Witnesses: []string{"cancel-first", "cancel-after-ssl"}},
+			{Pkg: "wire", Entry: "VerifH11", What: "CancelRequest after a completed TLS upgrade: no reply inside TLS, no callback, closed",
+				Quick: map[string]int{"STUFF": 2}, Witnesses: []string{"cancel-after-upgrade"}},
 		},
 	})
 	props = append(props, PropSpec{
